@@ -60,15 +60,17 @@ func harnessC09a() {
 	x1, x2 := vNondetU32("x1"), vNondetU32("x2")
 	t1, t2 := vNondetTime("t1"), vNondetTime("t2")
 	vAssume(t1 <= t2)
+	in1, in2 := newInbound(x1), newInbound(x2)
 	go func() {
 		vSleepUntil(t1)
-		g.acceptQ <- newInbound(x1)
+		g.acceptQ <- in1
 		vSleepUntil(t2)
-		g.acceptQ <- newInbound(x2)
+		g.acceptQ <- in2
 	}()
 
 	a, tA := vNondetU32("a"), vNondetTime("tA")
 	last := t2
+	var accepted net.Conn
 	if vNondetBool("withAccept") {
 		vCover("with-accept")
 		if tA > last {
@@ -83,6 +85,7 @@ func harnessC09a() {
 				vAssert(vNow()-t0 <= 5*sec, "unmatched Accept returns an error within 5 s")
 			} else {
 				vCover("accept-matched")
+				accepted = c
 				vAssert(strmG[c.(*yamux.Stream)].id == a, "Accept(a) returns a stream dialled for a")
 			}
 		}()
@@ -91,6 +94,14 @@ func harnessC09a() {
 	f := vNondetU32("f")
 	vAssume(f != x1 && f != x2 && f != a)
 	vSleepUntil(last + 11*sec)
+	// a dial nobody accepts ends: its stream is closed by the broker, so the remote Dial's wait for the ack returns
+	for _, in := range []*yamux.Stream{in1, in2} {
+		if accepted != net.Conn(in) {
+			vAssert(strmG[in].closed, "C09: an inbound dial nobody accepted is closed within the pending window (its dialler gets an error)")
+		} else {
+			vAssert(!strmG[in].closed && len(strmG[in].acked) == 1, "C09: the accepted stream is acknowledged and left open")
+		}
+	}
 	st := newInbound(f)
 	g.acceptQ <- st
 	c, err := m.Accept(f)
